@@ -400,6 +400,24 @@ func C18(c *core.Ctx) {
 	groups[3].files = []c18File{linked(single, "la.knut")}
 	groups[4].files = []c18File{linked(inf, "lt.knut")}
 	groups[5].files = []c18File{multi[0], multi[1], linked(multi[2], "lsmall.knut"), multi[3]}
+	// a file whose name is so long that name + random suffix exceeds NAME_MAX (the temp file cannot be created:
+	// the journal must stay as it was), and many files with one unparseable file in the middle
+	long := single
+	long.Name = strings.Repeat("n", 244) + ".knut"
+	add("format", []c18File{long}, "", -1, "file name of 249 bytes (no room for the temp name)")
+	add("format", []c18File{multi[0], long, multi[2]}, "", -1, "file name of 249 bytes among others")
+	var many []c18File
+	for k := 0; k < 40; k++ {
+		f := multi[2+k%2]
+		f.Name = fmt.Sprintf("m%02d.knut", k)
+		if k == 20 {
+			f = multi[1]
+			f.Name = "m20bad.knut"
+		}
+		many = append(many, f)
+	}
+	add("format", many, "", -1, "40 files, one unparseable in the middle")
+	add("format", many, "", len(multi[3].New)-1, "40 files, one unparseable, size limit below the larger outputs")
 	for _, g := range groups {
 		add(g.cmd, g.files, "", -1, "no fault")
 		// every byte offset (quick: a stride) via the file-size limit
